@@ -3,12 +3,35 @@
 
    Port unions / intervals: the model is run on the same input and the outputs compared.
    Hop histories: the boundary log recorded by the Go harness (one mutex, one sequence) is replayed
-   through [step].  Events logged inside a locked section of the code (ListenUDPFunc calls, socket
-   Close / Set* / WriteTo) determine the action (the first event of a section names it) and must
-   equal, one by one, the boundary calls the model's action emits; events of the lock-free receive
-   path and API returns that land between two events of a locked section are applied to the state
-   before that section (they do not depend on what it changes).  Nondeterministic choices (listen
-   failure, the rand.Intn draw, the select branch) are read from the log. *)
+   through [step].  Nondeterministic choices (listen failure, the rand.Intn draw, the select branch)
+   are read from the log.
+
+   Where a record sits relative to the atomic section it describes (the acceptor must accept every
+   order of records that a real interleaving of the code can produce, and no other):
+
+   * L C S W are appended by the fake socket, i.e. inside the code's section that holds connMutex;
+     SN is taken under connMutex.RLock.  Their order is the order of the sections.  The first such
+     record of a section names the action and the section's records must equal, one by one, the
+     boundary calls the model's action emits.
+   * A T D (receive path: lock-free) are appended by the fake socket / injector whenever they
+     happen, possibly between two records of a locked section.  They are applied to the state
+     before that section (they do not depend on what it changes).
+   * WC CL2 HN R are appended by the CALLER AFTER THE CALL HAS RETURNED, outside every lock of the
+     code.  The section they report (WriteTo / Close / hop finding the conn closed; the channel
+     operations of ReadFrom) therefore precedes the record, and another goroutine's locked section
+     may already be in progress when the record is appended: the record then lands between two
+     records of that section although the reported section was over before it began.  Like the
+     receive path they are applied to the state before the section in progress, which stays in
+     progress.  (Closedness, the only thing WC CL2 HN depend on, is permanent, so a late record is
+     judged exactly.)
+   * RS is appended by the caller BEFORE ReadFrom is called: the call's closed-first look at
+     closeChan comes after it.
+   * Close: both C records precede close(closeChan), which is what the lock-free readers see.  A
+     ReadFrom that starts (RS) after the last C record may therefore still pass its closed-first
+     look.  This is the schedule [AReadBegin rid; AClose] of the LTS: AClose emits the same calls
+     either way and does not touch [armed].  The window is open from the last C record of Close
+     until a record shows that Close has released connMutex (any later L C S W SN WC CL2 HN) or
+     that closeChan is closed (a read returning closed). *)
 From Hy Require Import lib.Harness model.C19_PortUnion model.C19_Hop.
 From Coq Require Import ZArith Bool.
 Local Open Scope N_scope.
@@ -91,19 +114,20 @@ Definition opt_nat_eqb (a b : option nat) : bool :=
 
 Definition count_open (l : list sock) : nat := length (filter s_open l).
 
-(* replay state: model state, and the locked section in progress with the number of its boundary
-   calls already seen *)
-Definition rstate : Type := (st * option (action * nat))%type.
+(* replay state: model state; the locked section in progress with the number of its boundary
+   calls already seen; whether the closing window (see above) is open *)
+Definition rstate : Type := (st * option (action * nat) * bool)%type.
 
-Definition locked (ps : list N) (rs : rstate) (e : ev) (a0 : action) : option rstate :=
-  let '(s, pend) := rs in
+Definition locked (ps : list N) (s : st) (pend : option (action * nat)) (e : ev) (a0 : action) : option rstate :=
   let '(a, n) := match pend with Some an => an | None => (a0, O) end in
   let '(s', outs) := step ps s a in
   let em := filter locked_out outs in
   match nth_error em n with
   | Some o =>
       if ev_matches e o
-      then Some (if Nat.eqb (S n) (length em) then (s', None) else (s, Some (a, S n)))
+      then Some (if Nat.eqb (S n) (length em)
+                 then (s', None, closed s' && negb (closed s))   (* last record of Close opens the window *)
+                 else (s, Some (a, S n), false))
       else None
   | None => None
   end.
@@ -117,18 +141,18 @@ Definition unlocked_step (ps : list N) (s : st) (a : action) (expect : list out)
   end.
 
 Definition rstep (ps : list N) (rs : rstate) (e : ev) : option rstate :=
-  let '(s, pend) := rs in
+  let '(s, pend, cw) := rs in
   match e with
   | EL ok id r =>
       match pend with
       | Some _ => None                               (* a listen never comes inside another section *)
-      | None => if negb ok || Nat.eqb id (length (socks s)) then locked ps rs e (AHop ok r) else None
+      | None => if negb ok || Nat.eqb id (length (socks s)) then locked ps s pend e (AHop ok r) else None
       end
-  | EC k => locked ps rs e AClose
-  | ES k kd v => locked ps rs e (ASet kd v)
-  | EW k p d => match pend with Some _ => None | None => locked ps rs e (AWrite d) end
-  | EA k p => match unlocked_step ps s (AArrive k p) [] with Some s' => Some (s', pend) | None => None end
-  | ET k => match unlocked_step ps s (AArriveTimeout k) [] with Some s' => Some (s', pend) | None => None end
+  | EC k => locked ps s pend e AClose
+  | ES k kd v => locked ps s pend e (ASet kd v)
+  | EW k p d => match pend with Some _ => None | None => locked ps s pend e (AWrite d) end
+  | EA k p => match unlocked_step ps s (AArrive k p) [] with Some s' => Some (s', pend, cw) | None => None end
+  | ET k => match unlocked_step ps s (AArriveTimeout k) [] with Some s' => Some (s', pend, cw) | None => None end
   | ED k =>
       if negb (sock_open (socks s) k) ||
          match pend with Some (a, _) => negb (sock_open (socks (fst (step ps s a))) k) | None => false end
@@ -136,19 +160,20 @@ Definition rstep (ps : list N) (rs : rstate) (e : ev) : option rstate :=
   | ERS rid =>
       (* the call's closed-first check happens after this entry; placing it here when the conn is
          still open is one of the schedules of the LTS and leaves both later outcomes possible *)
-      if closed s then Some rs
-      else match unlocked_step ps s (AReadBegin rid) [] with Some s' => Some (s', pend) | None => None end
+      if closed s then
+        if cw then Some (with_armed s (rid :: armed s), pend, cw)   (* [AReadBegin rid] scheduled before [AClose] *)
+        else Some rs
+      else match unlocked_step ps s (AReadBegin rid) [] with Some s' => Some (s', pend, cw) | None => None end
   | ER rid r =>
+      let cw' := cw && negb (ret_eqb r RClosed) in
       if existsb (Nat.eqb rid) (armed s)
       then match unlocked_step ps s (AReadSelect rid (ret_eqb r RClosed)) [ORet r] with
-           | Some s' => Some (s', pend) | None => None end
+           | Some s' => Some (s', pend, cw') | None => None end
       else match unlocked_step ps s (AReadBegin rid) [ORet r] with
-           | Some s' => Some (s', pend) | None => None end
+           | Some s' => Some (s', pend, cw') | None => None end
   | EWC =>
-      match pend with
-      | Some _ => None
-      | None => match unlocked_step ps s (AWrite 0) [ORet RClosed] with Some s' => Some (s', None) | None => None end
-      end
+      (* WriteTo found the conn closed (accepted only if the model's conn is closed) *)
+      match unlocked_step ps s (AWrite 0) [ORet RClosed] with Some s' => Some (s', pend, false) | None => None end
   | ESN p c i cl q no =>
       match pend with
       | Some _ => None
@@ -156,22 +181,18 @@ Definition rstep (ps : list N) (rs : rstate) (e : ev) : option rstate :=
           if opt_nat_eqb p (prev s) && Nat.eqb c (cur s) && Nat.eqb i (idx s) && Bool.eqb cl (closed s) &&
              match q with Some n => Nat.eqb n (length (queue s)) | None => true end &&
              Nat.eqb no (count_open (socks s))
-          then Some rs else None
+          then Some (s, None, false) else None
       end
   | EHN =>
-      match pend with
-      | Some _ => None
-      | None => if closed s then
-                  match step ps s (AHop true 0) with (_, []) => Some rs | _ => None end
-                else None
-      end
+      (* a hop that found the conn closed: no boundary call at all *)
+      if closed s then
+        match step ps s (AHop true 0) with (s', []) => Some (s', pend, false) | _ => None end
+      else None
   | ECL2 =>
-      match pend with
-      | Some _ => None
-      | None => match unlocked_step ps s AClose [ORet RNil] with
-                | Some s' => if closed s then Some (s', None) else None
-                | None => None end
-      end
+      (* a Close that found the conn closed *)
+      match unlocked_step ps s AClose [ORet RNil] with
+      | Some s' => if closed s then Some (s', pend, false) else None
+      | None => None end
   end.
 
 (* returns the index of the first rejected event (Some i) or the final state *)
@@ -198,8 +219,8 @@ Definition hop_check (expr : list byte) (ctor_ok : bool) (r0 : nat) (evs : list 
   | Some ps =>
       match init ps ctor_ok r0 with
       | Ok s0 =>
-          match replay ps (s0, None) 0 evs with
-          | inl (s, None) => census_eqb (socks s) census
+          match replay ps (s0, None, false) 0 evs with
+          | inl (s, None, _) => census_eqb (socks s) census
           | _ => false
           end
       | Err _ => negb ctor_ok && match evs, census with [], [] => true | _, _ => false end
@@ -212,7 +233,7 @@ Definition hop_reject_at (expr : list byte) (ctor_ok : bool) (r0 : nat) (evs : l
   match hop_ports expr with
   | None => Some O
   | Some ps => match init ps ctor_ok r0 with
-               | Ok s0 => match replay ps (s0, None) 0 evs with inr i => Some i | inl _ => None end
+               | Ok s0 => match replay ps (s0, None, false) 0 evs with inr i => Some i | inl _ => None end
                | _ => None
                end
   end.
@@ -248,3 +269,41 @@ Definition check (c : case) : bool :=
   end.
 
 Definition mismatches (l : list case) : list nat := mism_from check 0 l.
+
+(* ---------------- self-tests of the acceptor on small logs (ports "443", one successful hop).
+   A record made by the caller after its call returned may land inside another goroutine's section
+   (here a SetDeadline racing a WriteTo / Close / hop on a closed conn): accepted.  The same
+   records while the conn is still open: rejected. *)
+Example accept_late_returns_inside_a_section :
+  hop_check [x34;x34;x33] true 0%nat
+    [EL true 1%nat 0%nat; EC 0%nat; EC 1%nat;
+     ES 0%nat SDL 0%Z; EWC; ECL2; EHN; ES 1%nat SDL 0%Z]
+    [(false, 1); (false, 1)] = true.
+Proof. vm_compute. reflexivity. Qed.
+
+Example reject_closed_returns_on_an_open_conn :
+  map (fun e => hop_check [x34;x34;x33] true 0%nat [EL true 1%nat 0%nat; ES 0%nat SDL 0%Z; e; ES 1%nat SDL 0%Z]
+                          [(true, 0); (true, 0)])
+      [EWC; ECL2; EHN; EA 0%nat 7] = [false; false; false; true].
+Proof. vm_compute. reflexivity. Qed.
+
+Example reject_section_with_a_missing_or_foreign_record :
+  map (fun l => hop_check [x34;x34;x33] true 0%nat (EL true 1%nat 0%nat :: EC 0%nat :: EC 1%nat :: l)
+                          [(false, 1); (false, 1)])
+      [[ES 0%nat SDL 0%Z; EWC]; [ES 0%nat SDL 0%Z; EWC; ES 1%nat SRDL 0%Z];
+       [ES 0%nat SDL 0%Z; EWC; EW 1%nat 443 0]; [ES 0%nat SDL 0%Z; EWC; ES 1%nat SDL 0%Z]]
+  = [false; false; false; true].
+Proof. vm_compute. reflexivity. Qed.
+
+(* closing window: a ReadFrom started right after Close's last socket call may still get a queued
+   packet; once anything shows that Close is over, it must return closed *)
+Example closing_window :
+  map (fun l => hop_check [x34;x34;x33] true 0%nat (EA 0%nat 7 :: EC 0%nat :: l) [(false, 1)])
+      [[ERS 0%nat; ER 0%nat (RPkt 7)];
+       [ERS 0%nat; ER 0%nat RClosed];
+       [EWC; ERS 0%nat; ER 0%nat (RPkt 7)];
+       [ESN None 0%nat 0%nat true None 0%nat; ERS 0%nat; ER 0%nat (RPkt 7)];
+       [ERS 0%nat; ER 0%nat RClosed; ERS 1%nat; ER 1%nat (RPkt 7)];
+       [EWC; ERS 0%nat; ER 0%nat RClosed]]
+  = [true; true; false; false; false; true].
+Proof. vm_compute. reflexivity. Qed.
